@@ -426,11 +426,17 @@ func historyCase(t *testing.T, r *evid.Run, idx int, tmp string) {
 	for _, nme := range names {
 		finalVals[nme] = current(nme)
 	}
+	// (in every eighth history the cache is slow for this last write: when Close has returned the write is over)
+	if idx%8 == 3 {
+		cache.SetOnWrite(func(int, []byte) { time.Sleep(15 * time.Millisecond) })
+	}
 	st.Close()
+	nwAtClose := cache.NumWrites()
+	cache.SetOnWrite(nil)
 	closed = true
 	r.Count("flush_on_shutdown", 1)
 	trace = append(trace, "close")
-	if cache.NumWrites() == wb {
+	if nwAtClose == wb {
 		fail("no-cache-write-on-shutdown", "the poller shut down without rewriting the cache", nil)
 		return
 	}
